@@ -94,6 +94,9 @@ MapFuncFinger(r) ==
   ELSE IF ~r.compiles THEN {<<"C01", "does-not-compile", "mapfunc-parent", r.id>>}
   ELSE (IF r.res.A # 7 THEN {<<"C06", "map-func-applied-to-wrong-value", "field-source", r.id>>} ELSE {})
        \cup (IF r.res.B # 12 THEN {<<"C06", "map-func-applied-to-wrong-value", "whole-source", r.id>>} ELSE {})
+       \* `map . Self` without a function into a field of the source's own pointer type: a copy, not the source pointer itself
+       \cup (IF r.res.selfShared THEN {<<"C04", "result-shares-memory-with-source", "map-dot-into-pointer-field", r.id>>} ELSE {})
+       \cup (IF r.res.selfV # 5 THEN {<<"C05", "wrong-source-selected", "map-dot-into-pointer-field", r.id>>} ELSE {})
 \* C01 on update methods at the corners of the zero-value guard: a struct field that cannot be compared with == (it holds a slice)
 \* under :struct, and `map . X` with a pointer source.  Whatever goverter decides, a reported success must compile.
 UpdOddFinger(r) ==
@@ -141,6 +144,8 @@ DefFinger(r) ==
 Finger18(r) ==
   IF r.gen # "ok" \/ "imports" \notin DOMAIN r THEN {}
   ELSE (IF Rng(r.imports) \cap {"reflect", "unsafe"} # {} THEN {<<"C18", "imports-reflect-or-unsafe", r.kind, r.id>>} ELSE {})
+       \cup (IF r.kind \in {"update-wrap", "mapfunc-wrap"} /\ (IF r.prog.x = "plain" THEN "fmt" ELSE "wrap-pkg") \notin Rng(r.imports)
+             THEN {<<"C18", "imports-differ-from-needed", "wrap-package-missing-" \o r.kind, r.id>>} ELSE {})
        \cup (IF ~(Rng(r.imports) \subseteq {"user", "user-q"} \cup (IF r.kind \in {"update-wrap", "mapfunc-wrap"} THEN (IF r.prog.x = "plain" THEN {"fmt"} ELSE {"wrap-pkg"}) ELSE {})) THEN {<<"C18", "imports-differ-from-owners-of-used-types", r.kind, r.id>>} ELSE {})
        \cup (IF \E i \in DOMAIN r.decls : r.decls[i] \notin {"struct", "method"} THEN {<<"C18", "extra-top-level-declaration", r.kind, r.id>>} ELSE {})
 Finger0(r) == IF r.kind = "genfile" THEN {}
